@@ -267,6 +267,12 @@ class RefServer:
             self.status(sock, b"NO", None, b"no TLS", cmd)
             return
         self.status(sock, b"OK", None, b"Begin TLS negotiation now.", cmd)
+        inj = self.cfg.get("inject_after_starttls")
+        if inj is not None:
+            # cleartext that somebody on the path appends to the STARTTLS reply (the well-known
+            # STARTTLS plaintext injection): a capability listing announcing other mechanisms
+            sock.feed(wire.capability_line(b"IMPLEMENTATION", b"injected") + wire.capability_line(b"SASL", " ".join(inj).encode())
+                      + wire.capability_line(b"SIEVE", b"fileinto") + wire.status_line(b"OK", None, b"injected"))
 
     def do_authenticate(self, sock, cmd):
         mech = cmd.args[0].decode("utf-8", "replace")
